@@ -5,7 +5,7 @@ import Chewing.Proofs.LearnMap
 `learn_phrase` applied to the learn units from left to right, which intervals are units, liveness of every
 unit afterwards, and the end-to-end bounded-liveness statement over repeated learning.
 -/
-namespace Chewing
+namespace Chewing.Learn
 open Gen.Learn Gen.Est
 
 /-- all layer entries under `key`: system layers, then the user layer -/
@@ -443,4 +443,4 @@ theorem run_unit (symbols : List Sym) (pre run post : List Interval)
     simp only [List.flatMap_cons, List.append_eq_nil_iff] at h
     exact ha h.1
 
-end Chewing
+end Chewing.Learn
